@@ -286,8 +286,10 @@ def core_profiles(extra=None, n=10, steps=40):
          dict(n=n, steps=steps + 10, backend="mixed", regime="causal", retention=2, profile="members"),
          dict(n=n, steps=steps + 10, backend="sql", regime="causal", profile="members", groups=2),
          dict(n=12, backend="mixed", profile="fork"),
-         dict(n=8, backend="mixed", profile="props")]
+         dict(n=8, backend="mixed", profile="props"),
+         dict(n=6, backend="mixed", profile="rejoin")]
     t = [dict(n=60, backend=["mem", "sql", "mixed"][i % 3], profile="fork", retention=[5, 3, 6][i % 3]) for i in range(3)]
+    t += [dict(n=60, backend=["mixed", "sql", "mem"][i % 3], profile="rejoin", retention=[5, 2, 3][i % 3]) for i in range(3)]
     t += [dict(n=60, backend=["mem", "sql", "mixed"][i % 3], profile="props", restarts=i % 2, retention=[5, 2, 3][i % 3]) for i in range(3)]
     for i in range(10):
         t.append(dict(n=50, steps=60, backend=["mem", "sql", "mixed"][i % 3], regime="causal",
@@ -313,7 +315,7 @@ def plan_C02(ctx, rt):
                                  dict(n=4, steps=70, backend="mem", regime="causal", profile="members", oot=2, mfd=5, maxpast=2)]
     pr["thorough"] = pr["thorough"] + [dict(n=30, steps=80, backend=["mem", "sql", "mixed"][i % 3], regime="causal", profile=["core", "members"][i % 2],
                                             oot=[1, 2, 0, 3][i % 4], mfd=[2, 5, 1, 3][i % 4], maxpast=[5, 2, 1, 3][i % 4]) for i in range(4)]
-    return run_marmot(ctx, rt, invariants=["InvC02"], properties=["ActC02"], view="C02", mc=MC_CORE, profiles=pr,
+    return run_marmot(ctx, rt, invariants=["InvC02"], properties=["ActC02"], view="C02", mc=MC_CORE, profiles=pr, schedules=["rejoin_same_epoch.json"],
                       nontrivial=nt_msgs, assumptions=ASSUME_MARMOT,
                       rule="as C01, plus configurations with out_of_order_tolerance in {0..3}, maximum_forward_distance in {1..5}, "
                            "max_past_epochs in {1..5} and senders talking in bursts; non-trivial = at least one message created and stored at another member")
@@ -423,7 +425,7 @@ def nt_welcome(h):
 
 def plan_C16(ctx, rt):
     return run_marmot(ctx, rt, invariants=["InvC16", "InvC08"], properties=["ActC16", "ActC16Join"], view="C16", mc=MC_MEMBER,
-                      profiles=welcome_profiles(), nontrivial=nt_welcome, assumptions=ASSUME_MARMOT, schedules=["two_welcomes.json"],
+                      profiles=welcome_profiles(), nontrivial=nt_welcome, assumptions=ASSUME_MARMOT, schedules=["two_welcomes.json", "rejoin_same_epoch.json"],
                       rule="directed-random invitation scenarios: valid welcome, the same rumor replayed under fresh wrapper ids, welcome "
                            "handed to a non-recipient, process/accept/decline in random order and repetition, interleaved with messages and "
                            "commits, remove + re-invite with the joiner having / not having processed its removal; recipients in every state "
@@ -525,18 +527,37 @@ def nt_refused(h):
 
 
 def plan_C06(ctx, rt):
-    return run_marmot(ctx, rt, invariants=[], properties=["ActC06"], view="C06", mc=MC_CORE, profiles=junk_profiles(),
-                      nontrivial=nt_refused,
-                      assumptions=ASSUME_MARMOT + ["bytes are not enumerated by TLC: the spec enumerates hostile-input CLASSES (bad kind, missing/"
-                                                    "duplicate/short/non-hex h tag, stale/future timestamp, unknown group, undecryptable content, NIP-44-"
-                                                    "wrapped junk under the right exporter secret, truncated and bit-flipped copies of real MLS payloads); "
-                                                    "the harness instantiates each class with seeded random mutations",
-                                                    "OpenMLS is built without debug assertions (its debug_assert on AEAD failure panics in debug builds)",
-                                                    "welcome / key-package / uniffi-string inputs are not covered by this check yet"],
-                      rule="membership histories with hostile events of 12 classes injected at random points and handed to random clients "
-                           "(any state: idle, pending commit, queued proposals, evicted, non-member); every call runs under catch_unwind; "
-                           "non-trivial = a hostile event was published and some call was refused")
-
+    if ctx.get("replay"):
+        rpj = json.load(open(ctx["replay"]))
+        if rpj.get("kind") == "tables":          # a replay file of the parser half
+            import plans_tables
+            known = plans_tables._known(rt)
+            return plans_tables._replay_tables(ctx, rt, rt.build_crate("htables"), plans_tables._dev(rt, known), rpj, "InvC15", known)
+    rc = run_marmot(ctx, rt, invariants=[], properties=["ActC06"], view="C06", mc=MC_CORE, profiles=junk_profiles(),
+                    nontrivial=nt_refused,
+                    assumptions=ASSUME_MARMOT + ["bytes are not enumerated by TLC: the spec enumerates hostile-input CLASSES (bad kind, missing/"
+                                                  "duplicate/short/non-hex h tag, stale/future timestamp, unknown group, undecryptable content, NIP-44-"
+                                                  "wrapped junk under the right exporter secret, truncated and bit-flipped copies of real MLS payloads); "
+                                                  "the harness instantiates each class with seeded random mutations",
+                                                  "OpenMLS is built without debug assertions (its debug_assert on AEAD failure panics in debug builds)",
+                                                  "key-package / welcome / extension / imeta inputs: every shape of the Tables.tla decision tables (hostile tag "
+                                                  "classes incl. multi-byte characters at byte-indexed cut points) is executed on the real parsers; uniffi "
+                                                  "string inputs are not covered"],
+                    rule="membership histories with hostile events of 12 classes and a hostile member's events injected at random points and handed "
+                         "to random clients (any state: idle, pending commit, queued proposals, evicted, non-member); every call runs under "
+                         "catch_unwind; non-trivial = a hostile event was published and some call was refused; plus every enumerated parser shape")
+    if rc != 0 or ctx.get("replay"):
+        return rc
+    # parser half (no state to leave unchanged: the claim is no panic and the table's refuse / accept answer)
+    import plans_tables
+    rc2, stats = plans_tables.parser_part_for_C06(ctx, rt)
+    evp = os.path.join(rt.EVID, "C06.json")
+    if os.path.exists(evp):
+        ev = json.load(open(evp))
+        ev["coverage"]["parser_tables"] = stats
+        ev["violations"] = ev.get("violations", 0) + (1 if rc2 == 1 else 0)
+        json.dump(ev, open(evp, "w"), indent=1)
+    return rc2
 
 def adversary_profiles():
     q = [dict(n=8, steps=80, backend="mixed", regime="causal", profile="members", adv=1, groups=2),
